@@ -4,6 +4,7 @@ CONSTANTS
   Fuel = 4
   Quarantine = {}
   Only = {}
+  Offsets = {0}
   Allow = {"pou:block", "q:retain", "q:non_retain", "q:constant", "in:redge", "in:fedge", "block:more", "names:more"}
   Emit = TRUE
 INVARIANTS OneValue NothingDropped Terminates PrecedenceShape EmitReplay
